@@ -4,6 +4,8 @@
 (* every caller/callee program in which `main` owns the cells              *)
 (*     x = 1  y = 5  arr = [2, 3]  s = S {m: 4, a: [6, 7]}                 *)
 (*     w = W {m: 8, n: 9}  p: &i32 = &x  py: &i32 = &y                     *)
+(*     (and pa: &[2]i32 = &arr, ps: &S = &s to pass arrays and structures  *)
+(*     through a local pointer)                                            *)
 (* prints them, calls f with one argument per parameter, and prints them   *)
 (* again; every parameter of f has a kind                                  *)
 (*     value i32 | word W | aview []i32 | sview S | sptr &[]i32 |          *)
@@ -59,10 +61,13 @@ ParamType(kd) == CASE kd = "value" -> I32T [] kd = "word" -> Named("W") [] kd = 
                    [] kd = "ptr" -> PtrT(I32T) [] kd = "pptr" -> PtrT(PtrT(I32T)) [] kd = "sp" -> PtrT(Named("S"))
                    [] kd = "wp" -> PtrT(Named("W"))
 \* the argument forms the caller may write for a parameter of each kind
-ArgForms(kd) == CASE kd = "value" -> <<Ref("x", 0, <<>>), Ref("arr", 0, <<Ix(1)>>), Ref("p", 0, <<>>)>>
-                  [] kd = "word" -> <<Ref("w", 0, <<>>)>>
-                  [] kd = "aview" -> <<Ref("arr", 0, <<>>), Ref("s", 0, <<Mb("a")>>)>>
-                  [] kd = "sview" -> <<Ref("s", 0, <<>>)>>
+Paren(e) == [k |-> "paren", e |-> e]
+ArgForms(kd) == CASE kd = "value" -> <<Ref("x", 0, <<>>), Ref("arr", 0, <<Ix(1)>>), Ref("p", 0, <<>>), Paren(Ref("p", 0, <<>>))>>
+                  [] kd = "word" -> <<Ref("w", 0, <<>>), Paren(Ref("w", 0, <<>>))>>
+                  \* an array by name, as a member, through a local pointer `pa: &[2]i32 = &arr`; each also parenthesised
+                  [] kd = "aview" -> <<Ref("arr", 0, <<>>), Ref("s", 0, <<Mb("a")>>), Ref("pa", 0, <<>>),
+                                       Paren(Ref("arr", 0, <<>>)), Paren(Ref("pa", 0, <<>>)), Paren(Ref("s", 0, <<Mb("a")>>))>>
+                  [] kd = "sview" -> <<Ref("s", 0, <<>>), Paren(Ref("s", 0, <<>>)), Ref("ps", 0, <<>>), Paren(Ref("ps", 0, <<>>))>>
                   [] kd = "sptr" -> <<Ref("arr", 1, <<>>), Ref("s", 1, <<Mb("a")>>)>>
                   [] kd = "aptr" -> <<Ref("arr", 1, <<>>)>>
                   [] kd = "ptr" -> <<Ref("x", 1, <<>>), Ref("p", 1, <<>>), Ref("arr", 1, <<Ix(1)>>), Ref("s", 1, <<Mb("m")>>),
@@ -80,7 +85,8 @@ Reach(kd, a) == CASE kd \in {"value", "word", "aview", "sview"} -> {}
                   [] kd = "wp" -> {8, 9}
 \* how f reaches the i32 behind parameter q
 Path(kd) == CASE kd \in {"value", "ptr", "pptr"} -> <<>>
-              [] kd \in {"word", "sview", "sp", "wp"} -> <<Mb("m")>>
+              [] kd \in {"sview", "sp"} -> <<Mb("m")>>
+              [] kd \in {"word", "wp"} -> <<Mb("n")>>         \* the second member
               [] kd \in {"aview", "sptr", "aptr"} -> <<Ix(1)>>
 Ways(kd) == {"none", "read", "write", "copy", "forward"}
               \cup (IF kd \in {"aview", "sptr", "aptr"} THEN {"len"} ELSE {})
@@ -103,7 +109,8 @@ PrintCells == PrintFrom(1)
 Prelude == << Var("x", I32T, I32(1)), Var("y", I32T, I32(5)), Var("arr", ArrT(2, I32T), Arr2(I32(2), I32(3))),
               Var("s", Named("S"), [k |-> "st", n |-> "S", fs |-> <<[m |-> "m", e |-> I32(4)], [m |-> "a", e |-> Arr2(I32(6), I32(7))]>>]),
               Var("w", Named("W"), [k |-> "st", n |-> "W", fs |-> <<[m |-> "m", e |-> I32(8)], [m |-> "n", e |-> I32(9)]>>]),
-              Var("p", PtrT(I32T), Ref("x", 1, <<>>)), Var("py", PtrT(I32T), Ref("y", 1, <<>>)) >>
+              Var("p", PtrT(I32T), Ref("x", 1, <<>>)), Var("py", PtrT(I32T), Ref("y", 1, <<>>)),
+              Var("pa", PtrT(ArrT(2, I32T)), Ref("arr", 1, <<>>)), Var("ps", PtrT(Named("S")), Ref("s", 1, <<>>)) >>
 
 \* a parameter choice: [kd, way, a]
 Params(c1, c2) == IF c2.kd = "" THEN <<c1>> ELSE <<c1, c2>>
